@@ -2,11 +2,13 @@ mod catalogue;
 mod catalogue_gen;
 mod common;
 mod consumers;
+mod creds;
 mod msgs;
 mod node;
 mod partlog;
 mod partlog_gen;
 mod permgen;
+mod perms;
 mod plan;
 mod runner;
 mod wire;
@@ -25,6 +27,10 @@ fn dispatch_worker(wa: WorkerArgs) -> i32 {
         "partlog" => worker_main(&partlog::Partlog, wa),
         "catalogue" => worker_main(&catalogue::Catalogue, wa),
         "wire" => worker_main(&wire::Wire, wa),
+        "creds" => worker_main(&creds::Creds, wa),
+        "permrules" => worker_main(&perms::PermRules, wa),
+        "authgate" => worker_main(&perms::AuthGate, wa),
+        "permhist" => worker_main(&perms::PermHist, wa),
         "offsets" => worker_main(&consumers::Offsets, wa),
         "groupcomp" => worker_main(&consumers::GroupComp, wa),
         "groups" => worker_main(&consumers::Groups, wa),
@@ -40,6 +46,10 @@ fn dispatch_replay(check: &str, case: &Value, p: &Params) -> common::Outcome {
         "partlog" => replay_case(&partlog::Partlog, case, p),
         "catalogue" => replay_case(&catalogue::Catalogue, case, p),
         "wire" => replay_case(&wire::Wire, case, p),
+        "creds" => replay_case(&creds::Creds, case, p),
+        "permrules" => replay_case(&perms::PermRules, case, p),
+        "authgate" => replay_case(&perms::AuthGate, case, p),
+        "permhist" => replay_case(&perms::PermHist, case, p),
         "offsets" => replay_case(&consumers::Offsets, case, p),
         "groupcomp" => replay_case(&consumers::GroupComp, case, p),
         "groups" => replay_case(&consumers::Groups, case, p),
